@@ -105,9 +105,13 @@ OPopClassRemove(F, st, x) ==
     IF st.ent[x].spawn THEN R(st, "any", st.ent[x].cls)
     ELSE R(Upd(F, st, x, [st.ent[x] EXCEPT !.cls = ""]), "", st.ent[x].cls)
 \* e.clear(): no keys left; c is the class it ends up with ("" as the code does, or the
-\* documented "info_null").  Refused for the worldspawn.
+\* documented "info_null").  For the worldspawn either refused, or carried out with the class kept
+\* (c = "worldspawn"): the property only says it can never get ANOTHER class.
 OClear(F, st, x, c) ==
-    IF st.ent[x].spawn THEN OSetClass(F, st, x, "info_null")
+    IF st.ent[x].spawn
+    THEN (IF c = "worldspawn"          \* carried out: the worldspawn keeps its class, loses the rest
+          THEN R(Upd(F, st, x, [st.ent[x] EXCEPT !.cls = "worldspawn", !.name = "", !.tk = ""]), "", "")
+          ELSE OSetClass(F, st, x, "info_null"))      \* refused (as the code does: ValueError)
     ELSE R(Upd(F, st, x, [st.ent[x] EXCEPT !.cls = c, !.name = "", !.tk = ""]), "", "")
 \* e.copy(vmf_file=m): a new object with the same keys, not in any map.
 OCopy(F, st, x, p, m) ==
@@ -152,6 +156,6 @@ Apply(F, st, a) ==
 \* exactly once, and anything else delivered is in the set afterwards.
 IterOK(snapshot, after, got) ==
     /\ \A i, j \in DOMAIN got : i # j => got[i] # got[j]
-    /\ snapshot \subseteq Range(got)
-    /\ Range(got) \subseteq snapshot \cup after
+    /\ (snapshot \cap after) \subseteq Range(got)       \* filed under the key all along: delivered
+    /\ Range(got) \subseteq snapshot \cup after         \* nothing that never was under the key
 =============================================================================
